@@ -27,11 +27,13 @@ from vf import modelgen as mg
 from vf.runner import Violation
 
 EPS = np.finfo(float).eps
-# scaled tolerance |f - f_ref| <= K_PID * eps * (steps so far + 8) * (sum of |terms|).  The integral state is carried
-# through mjData.act with one rounding of relative size eps per step on either side, so the admissible drift grows
-# linearly with the step count.  Calibration: worst observed ratio on the unchanged tree (seeds 1-3 quick + thorough)
-# was 1.2; K = 128 is ~100x that.  Mutants change the force by >= 1e-6 relative.
-K_PID = 16.0
+# scaled tolerance |f - f_ref| <= K_PID * eps * (steps so far + 8) * scale, scale = (|kp| + |ki| dt)(|u| + |length|) + |I| +
+# |kd v| + max |I| so far.  The integral and slew states are carried through mjData.act with one rounding of relative
+# size eps per step on either side, so the admissible drift grows linearly with the step count; the operand magnitudes
+# (not the possibly cancelling error e = u - length) set the scale.  Calibration on the unchanged tree: worst observed
+# ratio err / (eps * (n + 8) * scale) = 0.34 over seeds 1-3 quick and 12200 thorough cases; K = 32 is ~100x that.
+# The mutants change the force by >= 1e-6 relative and stay caught.
+K_PID = 32.0
 FP_PID_INDEX = 'C51:pid-indexes-by-actuator-id'
 
 num = mg.num
@@ -196,7 +198,10 @@ class PidRef:
             Inew = math.copysign(c['imax'], Inew)
             clipped = True
         f = c['kp'] * e + Inew + c['kd'] * (-vel)
-        scale = abs(c['kp'] * e) + abs(Inew) + abs(c['ki'] * e * dt) + abs(c['kd'] * vel) + self.imax_seen
+        # magnitude of the operands (not of the possibly cancelling results): u carries the rounding of the slew state
+        # that is integrated through mjData.act, so e = u - length is only accurate to eps*(|u|+|length|)
+        mag = abs(u) + abs(length)
+        scale = (abs(c['kp']) + abs(c['ki']) * dt) * mag + abs(Inew) + abs(c['kd'] * vel) + self.imax_seen
         out.append(dict(f=f, I=Inew, u=u, scale=scale, clipped=clipped, slewed=(u != u0)))
     return out
 
@@ -481,7 +486,7 @@ def main(ck):
       stats['cable_rest_worst_rel'] = max(stats.get('cable_rest_worst_rel', 0.0), worst / fscale)
       # the force is stiffness * (curvature - reference curvature): both are evaluated from the same quaternions, a
       # residual of a few ulp of the curvature (<= 1e-12 relative to the force a unit curvature change would give)
-      if worst > 1e-10 * fscale:
+      if worst > 1e-12 * fscale:             # observed on the unchanged tree: exactly 0 in all cases
         raise Violation('cable not force-free in its stress-free configuration: max |qfrc_passive| = %.3g (scale %.3g)' % (
             worst, fscale), bucket='cable-rest')
     else:
@@ -512,7 +517,7 @@ def main(ck):
         # internal torques cancel on every ancestor (Newton's third law): rounding-level residual only
         a = float(np.max(np.abs(f1[anc_dof])))
         stats['cable_ancestor_worst_rel'] = max(stats.get('cable_ancestor_worst_rel', 0.0), a / (np.max(np.abs(f1)) + 1e-300))
-        if a > 1e-9 * np.max(np.abs(f1)):
+        if a > 1e-12 * np.max(np.abs(f1)):       # worst observed on the unchanged tree: 6.4e-15 (thorough)
           raise Violation('ancestor dofs receive net torque %.3g from internal cable stresses (max cable torque %.3g)' % (
               a, np.max(np.abs(f1))), bucket='cable-locality')
       # (d) linear in the stiffness parameters [Pa]
